@@ -1,12 +1,13 @@
 #!/bin/bash
-# batch.sh <world> <seed> <count-per-worker> [params] : 8 workers into /dev/shm/t1/o*.jsonl, then tabulate
-cd /dev/shm/t1; rm -f o*.jsonl
-for w in 0 1 2 3 4 5 6 7; do SIM_SCRATCH=/dev/shm/t1 GOMAXPROCS=1 SIM_MODE=batch SIM_WORLD=$1 SIM_SEED=$2 SIM_FROM=$w SIM_STRIDE=8 SIM_COUNT=$3 SIM_PARAMS="$4" SIM_OUT=o$w.jsonl ./simworker -test.run '^TestSim$' -test.timeout 0 >w$w.log 2>&1 & done; wait
+# batch.sh <world> <seed> <count-per-worker> [params] : NW (default 8) workers into $T (default /dev/shm/t1)/o*.jsonl, then tabulate
+T=${T:-/dev/shm/t1}; NW=${NW:-8}
+cd $T; rm -f o*.jsonl
+for w in $(seq 0 $((NW-1))); do SIM_SCRATCH=$T GOMAXPROCS=1 SIM_MODE=batch SIM_WORLD=$1 SIM_SEED=$2 SIM_FROM=$w SIM_STRIDE=$NW SIM_COUNT=$3 SIM_PARAMS="$4" SIM_OUT=o$w.jsonl ./simworker -test.run '^TestSim$' -test.timeout 0 >w$w.log 2>&1 & done; wait
 grep -l -E "panic|fatal error|INFRA" w*.log | head
-python3 - <<'PY'
+T=$T python3 - <<'PY'
 import json,collections,glob
 runs=[]
-for f in glob.glob('/dev/shm/t1/o*.jsonl'):
+for f in glob.glob(__import__('os').environ['T']+'/o*.jsonl'):
     runs+=[json.loads(l) for l in open(f) if l.startswith('{"world"')]
 print(len(runs), 'runs; steps avg', sum(r['steps'] for r in runs)/max(1,len(runs)), 'wall ms avg', sum(r['wall_us'] for r in runs)/max(1,len(runs))/1000)
 c=collections.Counter()
